@@ -139,3 +139,97 @@ Example C07_histogram_examples :
     = Some [(3, 4); (4, 28); (5, 1); (6, 8); (9, 5)] /\
   relabel_obs C05_Examples.ex_perm C05_Examples.ex_turn_short <> C05_Examples.ex_turn_short.
 Proof. exact C07_Examples.ex_turn_histograms. Qed.
+
+(* ---------- 6. the binary32 bucket of a river observation (Flocq model, Model/BucketF32.v) ---------- *)
+(* bucket32 won sum: (equity * 100f32).round() as usize with equity = won as f32 / sum as f32 (0.5 when
+   sum = 0), every operation IEEE binary32 round-to-nearest-even, round() = halves away from zero.
+   bucket_exact won sum = (2*NN*won + sum) / (2*sum): the nearest percent, exact halves up, the oracle of
+   the differential harness.  All statements on the reachable range 0 <= won <= sum <= 990
+   (C07_range_standard; the short deck's 406 is inside it).
+   FINDING.  The statement asked for,
+       C07_bucket32_is_rounded_percent : forall won sum, 0 <= won <= sum -> sum <= 990 ->
+         bucket32 won sum = bucket_exact won sum,
+   is FALSE: at the 36 pairs with won/sum one of 21/40, 53/200, 59/200, 117/200 (exact ties x.5 percent)
+   the binary32 product falls just below the half and the implementation returns bucket_exact - 1.
+   Everywhere else on the range the two agree.  Proved below: the complete characterisation, the
+   equality with those ties excluded (_partial), the refutation, and the facts that survive unchanged:
+   bucket32 is always a nearest integer to 100*won/sum, lies in [0, NN], and is monotone in won. *)
+From RP Require Import Model.BucketF32.
+From RP Require Proofs.C07_BucketF32.
+Open Scope Z_scope.
+
+Theorem C07_bucket32_characterised : forall won sum, 0 <= won <= sum -> sum <= 990 ->
+  bucket32 won sum = if rounds_down_tie won sum then bucket_exact won sum - 1 else bucket_exact won sum.
+Proof. exact C07_BucketF32.bucket32_characterised. Qed.
+Print Assumptions C07_bucket32_characterised.
+
+Theorem C07_bucket32_is_rounded_percent_partial : forall won sum, 0 <= won <= sum -> sum <= 990 ->
+  rounds_down_tie won sum = false -> bucket32 won sum = bucket_exact won sum.
+Proof. exact C07_BucketF32.bucket32_exact_partial. Qed.
+Print Assumptions C07_bucket32_is_rounded_percent_partial.
+
+Theorem C07_bucket32_is_rounded_percent_refuted : forall won sum, 0 <= won <= sum -> sum <= 990 ->
+  rounds_down_tie won sum = true ->
+  bucket32 won sum = bucket_exact won sum - 1 /\ bucket32 won sum <> bucket_exact won sum.
+Proof. exact C07_BucketF32.bucket32_exact_refuted. Qed.
+Print Assumptions C07_bucket32_is_rounded_percent_refuted.
+(* the excluded pairs are exact ties, never at bucket 0 *)
+Theorem C07_rounds_down_is_tie : forall won sum, 0 <= won <= sum -> sum <= 990 ->
+  rounds_down_tie won sum = true -> is_tie won sum = true /\ 1 <= bucket_exact won sum.
+Proof. exact C07_BucketF32.rounds_down_is_tie. Qed.
+Print Assumptions C07_rounds_down_is_tie.
+Example C07_bucket32_refuted_instances :
+  (bucket32 21 40 = 52 /\ bucket_exact 21 40 = 53) /\ (bucket32 53 200 = 26 /\ bucket_exact 53 200 = 27) /\
+  (bucket32 59 200 = 29 /\ bucket_exact 59 200 = 30) /\ (bucket32 117 200 = 58 /\ bucket_exact 117 200 = 59) /\
+  (bucket32 504 960 = 52 /\ bucket_exact 504 960 = 53).
+Proof. exact C07_BucketF32.bucket32_refuted_instances. Qed.
+Example C07_bucket32_hyps :
+  (0 <= 600 <= 984 /\ 984 <= 990 /\ rounds_down_tie 600 984 = false /\ bucket32 600 984 = 61) /\
+  (0 <= 21 <= 40 /\ 40 <= 990 /\ rounds_down_tie 21 40 = true /\ is_tie 21 40 = true) /\
+  (0 <= 1 <= 200 /\ is_tie 1 200 = true /\ rounds_down_tie 1 200 = false /\ bucket32 1 200 = 1) /\
+  bucket32 0 0 = 50 /\ bucket_of32 (600%N, 984%N) = 61%N.
+Proof. exact C07_BucketF32.bucket32_hyps. Qed.
+
+(* within one half of NN * won / sum, ties included *)
+Theorem C07_bucket32_nearest : forall won sum, 0 <= won <= sum -> sum <= 990 -> 0 < sum ->
+  2 * sum * bucket32 won sum - sum <= 2 * NN * won <= 2 * sum * bucket32 won sum + sum.
+Proof. exact C07_BucketF32.bucket32_nearest. Qed.
+Print Assumptions C07_bucket32_nearest.
+Corollary C07_bucket32_nearest_abs : forall won sum, 0 <= won <= sum -> sum <= 990 ->
+  Z.abs (2 * NN * won - 2 * sum * bucket32 won sum) <= sum.
+Proof. exact C07_BucketF32.bucket32_nearest_abs. Qed.
+Print Assumptions C07_bucket32_nearest_abs.
+
+Theorem C07_bucket32_range : forall won sum, 0 <= won <= sum -> sum <= 990 -> 0 <= bucket32 won sum <= NN.
+Proof. exact C07_BucketF32.bucket32_range. Qed.
+Print Assumptions C07_bucket32_range.
+
+Theorem C07_bucket32_monotone : forall won won' sum, 0 <= won <= won' -> won' <= sum -> sum <= 990 ->
+  bucket32 won sum <= bucket32 won' sum.
+Proof. exact C07_BucketF32.bucket32_monotone. Qed.
+Print Assumptions C07_bucket32_monotone.
+
+(* the instance bucket_of32 of the parameter `bucket_of` of the theorems of parts 4 and 5.
+   FALSE as asked (same 36 pairs):
+     C07_bucket_of32_meaning : forall w n, (w <= n)%N -> (n <= 990)%N ->
+       bucket_of32 (w, n) = Z.to_N (bucket_exact (Z.of_N w) (Z.of_N n)) *)
+Theorem C07_bucket_of32_characterised : forall w n, (w <= n)%N -> (n <= 990)%N ->
+  bucket_of32 (w, n) = Z.to_N (if rounds_down_tie (Z.of_N w) (Z.of_N n)
+                               then bucket_exact (Z.of_N w) (Z.of_N n) - 1 else bucket_exact (Z.of_N w) (Z.of_N n)).
+Proof. exact C07_BucketF32.bucket_of32_characterised. Qed.
+Print Assumptions C07_bucket_of32_characterised.
+Theorem C07_bucket_of32_meaning_partial : forall w n, (w <= n)%N -> (n <= 990)%N ->
+  rounds_down_tie (Z.of_N w) (Z.of_N n) = false ->
+  bucket_of32 (w, n) = Z.to_N (bucket_exact (Z.of_N w) (Z.of_N n)).
+Proof. exact C07_BucketF32.bucket_of32_meaning_partial. Qed.
+Print Assumptions C07_bucket_of32_meaning_partial.
+Theorem C07_bucket_of32_range : forall w n, (w <= n)%N -> (n <= 990)%N -> (bucket_of32 (w, n) <= Z.to_N NN)%N.
+Proof. exact C07_BucketF32.bucket_of32_range. Qed.
+Print Assumptions C07_bucket_of32_range.
+(* the implementation's river bucket does not depend on the names of the suits *)
+Corollary C07_bucket32_suit_invariant : forall d p o,
+  wf_obs_d d o -> hand_size (public o) = 5%N -> In p EXHAUST ->
+  option_map bucket_of32 (equity_counts d (relabel_obs p o)) = option_map bucket_of32 (equity_counts d o) /\
+  bucket_of32 (counts_or_zero d (relabel_obs p o)) = bucket_of32 (counts_or_zero d o).
+Proof. exact (C07_Invariant.bucket_invariant bucket_of32). Qed.
+Print Assumptions C07_bucket32_suit_invariant.
